@@ -16,7 +16,8 @@ from . import common as C
 FUNCS = ['find_omega', 'find_omega_general', 'find_omega_quart', 'find_omega_wedge', 'form_omega_mat', 'form_omega_mat_general', 'quart_to_omega',
          'tth', 'tth2', 'sintl', 'form_b_mat']
 META = {
-    'explanation': 'The four omega solvers are executed symbolically: theta is a primitive angle (cos,sin) with 2theta its double, chi and wedge are '
+    'explanation': 'History: every call under test is preceded in the same process by legal calls of the tilted solvers with other tilts (chi = wedge = 0), and find_omega_general / find_omega_quart are analysed a second time with wedge = 0 exactly after such calls (units @wedge0). '
+                   'The four omega solvers are executed symbolically: theta is a primitive angle (cos,sin) with 2theta its double, chi and wedge are '
                    '(cos,sin) pairs with |angle|<=0.5 rad, g is a real vector with |g|^2 = sin^2(theta) encoded as a defining relation (laue: times an '
                    'arbitrary positive scale, exercising its renormalisation).  Paths: no solution (d<0) / two solutions, plus the sign forks of abs. '
                    'On the two-solution paths, for i=0,1: (Omega_i g)_x = -sin^2(theta), (Omega_i g)_y = -sin(2theta) sin(eta_i)/2, (Omega_i g)_z = '
